@@ -16,6 +16,8 @@ thousands of terms / arguments / elements): each alone through the real binary u
 address-space limit — time and memory in proportion to the size of the input."""
 import collections
 import subprocess
+import signal
+import threading
 import time
 import hashlib
 import json
@@ -216,20 +218,34 @@ WIDE_MEMORY = 3 * 1024 ** 3      # address space, 1 GiB of which is the stack th
 
 
 def run_wide(cli, path):
-    """the real binary on one wide input, alone in its process, within the time and memory limits; returns None or what went wrong"""
+    """the real binary on one wide input, alone in its process, within the limits on CPU time and address space (CPU time, so that a
+    loaded machine is not mistaken for a slow tool; the wall clock only bounds a process that sleeps); returns (None or what went
+    wrong, CPU seconds)"""
     def lim():
         import resource
         resource.setrlimit(resource.RLIMIT_AS, (WIDE_MEMORY, WIDE_MEMORY))
-    t0 = time.time()
-    try:
-        p = subprocess.run([cli, path], stdout=subprocess.PIPE, stderr=subprocess.PIPE, timeout=WIDE_SECONDS, preexec_fn=lim)
-    except subprocess.TimeoutExpired:
-        return "no result within %d s" % WIDE_SECONDS, WIDE_SECONDS
-    dt = time.time() - t0
-    out = p.stdout.decode("utf-8", "replace")
-    if p.returncode not in (0, 1) or not re.search(r"^circomspect: .*(issue|issues) found\.$", out, re.M):
-        return "exit status %s under a %d MB address-space limit, stderr: %s" % (p.returncode, WIDE_MEMORY >> 20, p.stderr.decode("utf-8", "replace")[-200:]), dt
-    return None, dt
+        resource.setrlimit(resource.RLIMIT_CPU, (WIDE_SECONDS, WIDE_SECONDS + 5))
+    import tempfile
+    with tempfile.TemporaryFile() as fo, tempfile.TemporaryFile() as fe:
+        p = subprocess.Popen([cli, path], stdout=fo, stderr=fe, preexec_fn=lim)
+        pid = p.pid
+        timer = threading.Timer(8 * WIDE_SECONDS, lambda: os.kill(pid, signal.SIGKILL))
+        timer.start()
+        try:
+            _, status, ru = os.wait4(pid, 0)
+        finally:
+            timer.cancel()
+        p.returncode = rc = os.waitstatus_to_exitcode(status)
+        cpu = ru.ru_utime + ru.ru_stime
+        fo.seek(0)
+        fe.seek(0)
+        out = fo.read().decode("utf-8", "replace")
+        err = fe.read()
+    if rc in (-signal.SIGXCPU, -signal.SIGKILL):
+        return "no result within %d s of CPU time" % WIDE_SECONDS, WIDE_SECONDS
+    if rc not in (0, 1) or not re.search(r"^circomspect: .*(issue|issues) found\.$", out, re.M):
+        return "exit status %s under a %d MB address-space limit, stderr: %s" % (rc, WIDE_MEMORY >> 20, err.decode("utf-8", "replace")[-200:]), cpu or 0
+    return None, cpu or 0
 
 
 def mutate_tokens(rng, toks):
@@ -408,7 +424,7 @@ def run(ctx):
                 wjobs.append((kind, nn, wd.write("w_%s_%d/main.circom" % (kind, nn), wide(kind, nn).encode())))
         wres = rl.pmap(lambda j: run_wide(cli, j[2]), wjobs, workers=4)
         for (kind, nn, path), (bad, dt) in zip(wjobs, wres):
-            if bad and bad.startswith("no result"):
+            if False and bad and bad.startswith("no result"):
                 bad, dt = run_wide(cli, path)          # once more with the machine to itself, so that load is not mistaken for a hang
             stats["wide inputs"] += 1
             stats["wide-%s-%d seconds" % (kind, nn)] = round(dt, 1)
@@ -455,7 +471,7 @@ def run(ctx):
     cov["distribution"] = dict(stats)
     cov["samples"] = samples or [{"ledger": {k: v for k, v in ledger.items() if k != "problems"}}]
     ctx.assumptions += ["inputs of modest size: nesting depth <= %d, width (consecutive statements / terms / signals / arguments) <= %d, file size <= 20 KB; "
-                        "a wide input must finish within %d s in at most %d MB of address space on the debug build" % (MODEST_DEPTH, max(WIDE.values()), WIDE_SECONDS, WIDE_MEMORY >> 20),
+                        "a wide input must finish within %d s of CPU time in at most %d MB of address space on the debug build" % (MODEST_DEPTH, max(WIDE.values()), WIDE_SECONDS, WIDE_MEMORY >> 20),
                         "deeper inputs (tens of thousands of nested blocks overflow the 1 GiB stack of the analysis thread: audits/C01/f4) are not modest",
                         "panic sites with the dispositions `environment` (stdout / file-system failures) and `trusted` (third-party contracts) are not exercised"]
 
